@@ -341,6 +341,14 @@ fn lit_src(spec: &str) -> Option<String> {
             let n = arg.parse::<usize>().unwrap();
             if n == 0 { "()".into() } else if n == 1 { "(0,)".into() } else { format!("({})", (0..n).map(|i| i.to_string()).collect::<Vec<_>>().join(", ")) }
         }
+        // a map literal: the engine's own `ValueMap`
+        "M" => {
+            let mut parts = Vec::new();
+            for (i, k) in arg.split(',').filter(|k| !k.is_empty()).enumerate() {
+                parts.push(format!("{}: {}", lit_src(&k.replace('=', ":"))?, i));
+            }
+            format!("{{{}}}", parts.join(", "))
+        }
         _ => return None,
     })
 }
@@ -455,7 +463,7 @@ fn run_gs(mode: &str, entry: &str, vs: &str, a: &str, b: &str, c: &str) -> Strin
         if spec == "_" { Some(String::new()) } else if entry == "lit" { lit_src(spec) } else { Some(name.to_string()) }
     };
     let (Some(sa), Some(sb), Some(sc)) = (part("a", a), part("b", b), part("c", c)) else { return "no-literal".into() };
-    let vsrc = if entry == "lit" && ["L:", "P:", "sn:", "sm:"].iter().any(|p| vs.starts_with(p)) { lit_src(vs).unwrap_or_else(|| "v".to_string()) } else { "v".to_string() };
+    let vsrc = if entry == "lit" && ["L:", "P:", "sn:", "sm:", "M:"].iter().any(|p| vs.starts_with(p)) { lit_src(vs).unwrap_or_else(|| "v".to_string()) } else { "v".to_string() };
     let src = if c == "_" && entry != "lit" { format!("{}[{}:{}]", vsrc, sa, sb) } else { format!("{}[{}:{}:{}]", vsrc, sa, sb, sc) };
     let ctx = context! { v => mk_spec(vs), a => mk_spec(a), b => mk_spec(b), c => mk_spec(c) };
     eval_entry(mode, entry, &src, ctx, &canon_g)
@@ -481,7 +489,7 @@ fn run_gi(mode: &str, entry: &str, vs: &str, key: &str) -> String {
         }
         "lit" | "dot" => {
             let Some(k) = lit_src(key) else { return "no-literal".into() };
-            let vsrc = if ["L:", "P:", "sn:", "sm:"].iter().any(|p| vs.starts_with(p)) { lit_src(vs).unwrap_or_else(|| "v".to_string()) } else { "v".to_string() };
+            let vsrc = if ["L:", "P:", "sn:", "sm:", "M:"].iter().any(|p| vs.starts_with(p)) { lit_src(vs).unwrap_or_else(|| "v".to_string()) } else { "v".to_string() };
             let src = if entry == "dot" { format!("{}.{}", vsrc, k) } else { format!("{}[{}]", vsrc, k) };
             eval_entry(mode, entry, &src, context! { v => mk_spec(vs) }, &canon)
         }
